@@ -17,6 +17,7 @@ import Kopf.Base.J
 namespace Kopf.C13
 
 abbrev Identity := String
+/-- ticks are plain integers (written `Int` throughout so that `omega` sees them) -/
 abbrev Tick := Int
 
 inductive Err where
@@ -69,7 +70,7 @@ def prioView : J → Option Int
 /-- `lastseen` after the harness' only abstraction (ISO-8601 text ↦ ticks). `absent` covers a missing
     key and an explicit `null` (`lastseen is not None` is false for both). -/
 inductive LastSeen where
-  | absent | at (t : Tick) | bad
+  | absent | at (t : Int) | bad
   deriving Repr
 
 /-- what `Peer(identity=…, **opinfo)` receives; unknown keys are swallowed by `**_`. -/
@@ -89,13 +90,13 @@ structure Peer where
   id : Identity
   prio : Option Int        -- `none`: not comparable with an int
   lifetime : Int           -- whole seconds
-  lastseen : Tick
+  lastseen : Int
   deriving Repr, DecidableEq
 
-def Peer.deadline (u : Int) (p : Peer) : Tick := p.lastseen + p.lifetime * u
-def Peer.isDead (u : Int) (now : Tick) (p : Peer) : Bool := decide (p.deadline u ≤ now)
+def Peer.deadline (u : Int) (p : Peer) : Int := p.lastseen + p.lifetime * u
+def Peer.isDead (u : Int) (now : Int) (p : Peer) : Bool := decide (p.deadline u ≤ now)
 
-def mkPeer (now : Tick) (i : Identity) : RawEntry → Except Err Peer
+def mkPeer (now : Int) (i : Identity) : RawEntry → Except Err Peer
   | .notMapping => .error .typeError
   | .record r =>
     if r.identityKey then .error .typeError else
@@ -110,7 +111,7 @@ def mkPeer (now : Tick) (i : Identity) : RawEntry → Except Err Peer
                        lifetime := l, lastseen := t }
 
 /-- `[Peer(identity=opid, **opinfo) for opid, opinfo in pairs.items()]`: the first failure wins. -/
-def parseAll (now : Tick) : List (Identity × RawEntry) → Except Err (List Peer)
+def parseAll (now : Int) : List (Identity × RawEntry) → Except Err (List Peer)
   | [] => .ok []
   | (i, e) :: rest =>
     match mkPeer now i e with
@@ -126,27 +127,27 @@ structure Decision where
   cleaned : List Identity     -- identities handed to `clean()`; `[]` = `clean()` not called
   turned : Option Bool        -- `turn_to(state)` called with this state
   paused : Option Bool        -- the toggle afterwards (`none`: no toggle was passed)
-  delays : List Tick          -- `deadline − now₂` of `same_peers + prio_peers`
-  sleep : Option Tick         -- what `aiotime.sleep` really sleeps (`none`: returns at once)
+  delays : List Int          -- `deadline − now₂` of `same_peers + prio_peers`
+  sleep : Option Int         -- what `aiotime.sleep` really sleeps (`none`: returns at once)
   touch : Bool                -- the self-touch that follows an uninterrupted sleep
   deriving Repr, DecidableEq
 
-def livePeers (u : Int) (now : Tick) (me : Identity) (ps : List Peer) : List Peer :=
+def livePeers (u : Int) (now : Int) (me : Identity) (ps : List Peer) : List Peer :=
   ps.filter (fun p => !p.isDead u now && p.id != me)
-def deadPeers (u : Int) (now : Tick) (ps : List Peer) : List Peer := ps.filter (fun p => p.isDead u now)
+def deadPeers (u : Int) (now : Int) (ps : List Peer) : List Peer := ps.filter (fun p => p.isDead u now)
 def prioPeers (myPrio : Int) (live : List Peer) : List Peer :=
   live.filter (fun p => match p.prio with | some q => decide (q > myPrio) | none => false)
 def samePeers (myPrio : Int) (live : List Peer) : List Peer :=
   live.filter (fun p => p.prio == some myPrio)
 
-def minList : List Tick → Option Tick
+def minList : List Int → Option Int
   | [] => none
   | x :: xs => match minList xs with | none => some x | some m => some (if x ≤ m then x else m)
 
 /-- everything after the peers are parsed and found comparable. `now` is the clock when the peers were
     built, `now₂` the clock after `clean()` and the toggle (they differ by the API latency of `clean`). -/
 def decideCore (u : Int) (ps : List Peer) (me : Identity) (myPrio : Int) (autoclean : Bool)
-    (toggle : Option Bool) (now now2 : Tick) : Decision :=
+    (toggle : Option Bool) (now now2 : Int) : Decision :=
   let dead := deadPeers u now ps
   let live := livePeers u now me ps
   let prio := prioPeers myPrio live
@@ -165,14 +166,14 @@ def decideCore (u : Int) (ps : List Peer) (me : Identity) (myPrio : Int) (autocl
     touch := !delays.isEmpty }
 
 def decideP (u : Int) (ps : List Peer) (me : Identity) (myPrio : Int) (autoclean : Bool)
-    (toggle : Option Bool) (now now2 : Tick) : Except Err Decision :=
+    (toggle : Option Bool) (now now2 : Int) : Except Err Decision :=
   -- `peer.priority > settings.peering.priority` over all live peers: one incomparable value raises
   if (livePeers u now me ps).any (fun p => p.prio.isNone) then .error .typeError
   else .ok (decideCore u ps me myPrio autoclean toggle now now2)
 
 /-- the whole call on a status that is a mapping. -/
 def decideEv (u : Int) (status : List (Identity × RawEntry)) (me : Identity) (myPrio : Int) (autoclean : Bool)
-    (toggle : Option Bool) (now now2 : Tick) : Except Err Decision :=
+    (toggle : Option Bool) (now now2 : Int) : Except Err Decision :=
   match parseAll now status with
   | .error e => .error e
   | .ok ps => decideP u ps me myPrio autoclean toggle now now2
@@ -185,7 +186,7 @@ inductive Outcome where
   deriving Repr, DecidableEq
 
 def processEvent (u : Int) (nameOk : Bool) (status : Option (List (Identity × RawEntry))) (me : Identity)
-    (myPrio : Int) (autoclean : Bool) (toggle : Option Bool) (now now2 : Tick) : Except Err Outcome :=
+    (myPrio : Int) (autoclean : Bool) (toggle : Option Bool) (now now2 : Int) : Except Err Outcome :=
   if !nameOk then .ok .ignored else
   match status with
   | none => .error .attrError
@@ -199,11 +200,11 @@ def kaSleep (lifetime jitter : Int) : Int := max 1 (min lifetime (max 1 (lifetim
 structure Rec where
   priority : Int
   lifetime : Int
-  lastseen : Tick
+  lastseen : Int
   deriving Repr, DecidableEq
 
-def Rec.deadline (u : Int) (r : Rec) : Tick := r.lastseen + r.lifetime * u
-def Rec.dead (u : Int) (now : Tick) (r : Rec) : Bool := decide (r.deadline u ≤ now)
+def Rec.deadline (u : Int) (r : Rec) : Int := r.lastseen + r.lifetime * u
+def Rec.dead (u : Int) (now : Int) (r : Rec) : Bool := decide (r.deadline u ≤ now)
 def Rec.toPeer (i : Identity) (r : Rec) : Peer :=
   { id := i, prio := some r.priority, lifetime := r.lifetime, lastseen := r.lastseen }
 def Rec.toRaw (r : Rec) : RawEntry :=
@@ -211,7 +212,7 @@ def Rec.toRaw (r : Rec) : RawEntry :=
             lastseen := LastSeen.at r.lastseen, identityKey := false }
 
 /-- `touch()`: `{identity: None if peer.is_dead else peer.as_dict()}` with `lastseen = now`. -/
-def touchVal (u : Int) (prio lifetime : Int) (now : Tick) : Option Rec :=
+def touchVal (u : Int) (prio lifetime : Int) (now : Int) : Option Rec :=
   let r : Rec := { priority := prio, lifetime := lifetime, lastseen := now }
   if r.dead u now then none else some r
 
@@ -237,11 +238,11 @@ structure Op where
   lifetime : Int
   alive : Bool
   paused : Bool
-  seen : Option (Nat × Tick)   -- version of the status last processed, and when
+  seen : Option (Nat × Int)   -- version of the status last processed, and when
   deriving Repr, DecidableEq
 
 structure State where
-  now : Tick
+  now : Int
   ver : Nat                    -- bumped by every write to the status
   status : Status
   ops : Identity → Option Op
@@ -262,7 +263,7 @@ def updOp (ops : Identity → Option Op) (i : Identity) (o : Op) : Identity → 
 
 def init : State := { now := 0, ver := 0, status := [], ops := fun _ => none }
 
-def latestDeadline (u : Int) (st : Status) (j : Identity) (now : Tick) : Tick :=
+def latestDeadline (u : Int) (st : Status) (j : Identity) (now : Int) : Int :=
   (st.filter (fun e => e.1 == j)).foldl (fun m e => max m (e.2.deadline u)) now
 
 def step (u : Int) (s : State) : Label → Option State
